@@ -300,7 +300,9 @@ fn check_batch(ctx: &Ctx, root: &Path, batch_name: &str, mods: &[(usize, usize, 
     // one rustc process per crate: a large batch is split into member crates of one
     // workspace so that `cargo check` uses all cores (documents stay whole: a resolution
     // error in one document only hides the type errors of its own shard)
-    let nshards = if mods.len() > 64 { ctx.threads.max(1) } else { 1 };
+    // (twice as many shards as cores, half as many rustc processes at a time: sixteen rustc
+    // processes over 160 generated modules each were killed for memory at the thorough tier)
+    let nshards = if mods.len() > 64 { (2 * ctx.threads).max(1) } else { 1 };
     if nshards == 1 {
         let _ = std::fs::remove_dir_all(batch.join("shards"));
         let mut main = String::from("#![allow(warnings)]\n");
@@ -338,7 +340,8 @@ fn check_batch(ctx: &Ctx, root: &Path, batch_name: &str, mods: &[(usize, usize, 
         let _ = std::fs::copy(root.join("harness/Cargo.lock"), batch.join("Cargo.lock"));
     }
     // --keep-going: a member crate that fails does not stop the others
-    let mut args = vec!["check".to_string(), "--offline".into(), "--message-format=short".into(), "-j".into(), ctx.threads.to_string()];
+    let jobs = if nshards > 1 { (ctx.threads / 2).max(4) } else { ctx.threads };
+    let mut args = vec!["check".to_string(), "--offline".into(), "--message-format=short".into(), "-j".into(), jobs.to_string()];
     if nshards > 1 {
         args.push("--workspace".into());
         args.push("--keep-going".into());
